@@ -37,6 +37,8 @@ TEMPLATES = [
     ('where-subselect-2int', 'SELECT a FROM int1.t1 WHERE a = {P} AND b IN (SELECT x FROM int2.t2 WHERE y = {P}) AND c = {P}'),
     ('group-having-order', 'SELECT a, count(b) FROM int1.t1 WHERE c = {P} GROUP BY a HAVING count(b) > {P} ORDER BY a LIMIT 5'),
     ('insert-values', 'INSERT INTO int1.t1 (a, b, c) VALUES ({P}, {P}, {P}), ({P}, 7, {P})'),
+    ('insert-values-later-rows', 'INSERT INTO int1.t1 (a, b, c) VALUES (1, 2, 3), ({P}, 7, {P}), (4, 5, 6), (8, {P}, 9)'),
+    ('insert-values-last-row', "INSERT INTO int1.t1 (a, b) VALUES (1, 'x'), (2, 'y'), (3, {P})"),
     ('insert-select', 'INSERT INTO int1.t1 (a, b) SELECT x, {P} FROM int1.t2 WHERE y = {P}'),
     ('update', 'UPDATE int1.t1 SET a = {P}, b = {P} WHERE c = {P}'),
     ('update-expr', 'UPDATE int1.t1 SET a = a + {P}, b = f({P}) WHERE c = {P} AND d IN ({P}, {P})'),
@@ -56,7 +58,7 @@ COLS = [{'name': n, 'type': 'int'} for n in ('id', 'a', 'b', 'c', 'd', 'e', 'x',
 
 
 def floors(tier):
-    return {'histories_checked': 800, 'len:templates': 25, 'wrong_count_calls': 150, 'fill_checks': 400}
+    return {'histories_checked': 800, 'len:templates': 27, 'wrong_count_calls': 150, 'fill_checks': 400}
 
 
 def instantiate(tmpl, mixed=False):
@@ -128,6 +130,10 @@ def strip_results(steps):
     return steps
 
 
+OTHER_Q = 'SELECT zz.x FROM int1.t9 AS zz WHERE zz.y = ?'
+OTHER_V = 'SELECT zz.x FROM int1.t9 AS zz WHERE zz.y = 777001'
+
+
 def run_history(text_q, text_v, vals, history):
     """Returns list of (sig, detail); history is a label of the call sequence to run."""
     from mindsdb_sql import parse_sql
@@ -153,8 +159,12 @@ def run_history(text_q, text_v, vals, history):
     if history in ('too-few', 'too-many'):
         bad = vals[:-1] if history == 'too-few' else vals + [9999]
         try:
-            list(pl.execute_steps(bad))
-            out.append(({'defect': 'wrong-count-accepted', 'history': history}, {'given': len(bad), 'expected': n}))
+            handle = pl.execute_steps(bad)          # the rejection belongs to the call, not to whoever iterates the result
+            try:
+                list(handle)
+                out.append(({'defect': 'wrong-count-accepted', 'history': history}, {'given': len(bad), 'expected': n}))
+            except PlanningException:
+                out.append(({'defect': 'wrong-count-rejected-only-when-iterated', 'history': history}, {'given': len(bad), 'expected': n}))
         except PlanningException:
             pass
         except Exception as e:
@@ -163,7 +173,22 @@ def run_history(text_q, text_v, vals, history):
             return 'checked', out
         # after the rejected attempt the statement must still execute correctly with the right values
     try:
-        got = strip_results(list(pl.execute_steps(list(vals))))
+        if history == 'interleaved-prepare':
+            # execute A, prepare another statement on the same planner before A's steps are read, then read them
+            handle = pl.execute_steps(list(vals))
+            for st in pl.prepare_steps(parse_sql(OTHER_Q, 'mindsdb')):
+                st.set_result(ex.answer(st))
+            got = strip_results(list(handle))
+            try:
+                got_b = strip_results(list(pl.execute_steps([777001])))
+                ref_b = strip_results(reference_steps(OTHER_V))
+                if monitors.struct(got_b) != monitors.struct(ref_b):
+                    out.append(({'defect': 'later-statement-bound-differently', 'history': history},
+                                {'got': [repr(s)[:200] for s in got_b][:4], 'expected': [repr(s)[:200] for s in ref_b][:4]}))
+            except (PlanningException, NotImplementedError) as e:
+                out.append(({'defect': 'later-statement-rejected', 'history': history}, {'error': str(e)[:200]}))
+        else:
+            got = strip_results(list(pl.execute_steps(list(vals))))
     except (PlanningException, NotImplementedError) as e:
         if len(info['parameters']) != n:
             return 'checked', out       # consequence of the mis-count already reported
@@ -205,7 +230,7 @@ def run_shard(ctx):
     r = ctx.sub_rng('compose')
     for _ in range(900 if ctx.tier == 'quick' else 8000):
         cases.append(compose(r))
-    histories = ['plain', 'plain', 'too-few', 'too-many', 'prepare-twice', 'second-execute']
+    histories = ['plain', 'plain', 'too-few', 'too-many', 'prepare-twice', 'second-execute', 'interleaved-prepare']
     idx = -1
     for ci, (label, tmpl) in enumerate(cases):
         for hi, h in enumerate(histories if label != 'composed' else [histories[ci % len(histories)], 'plain']):
